@@ -1,13 +1,15 @@
 (** The [Sequential] constraint in the fragment F1: (a) its contribution to the
-    backend request is a definitional block asserting that at trial t exactly
-    level (t mod nlevels) of the factor is on; (b) on a one-hot grid that is the
-    documented meaning ([Design/Sem.v], [KSequential]) on the decoded sequence. *)
+    backend request is a definitional block asserting that in the first trial
+    of the k-th group of [sustain] trials after the preamble exactly level
+    (k mod nlevels) of the factor is on; (b) on a one-hot grid whose rows are
+    constant on the sustain groups that is the documented meaning
+    ([Design/Sem.v], [KSequential]) on the decoded sequence. *)
 From Coq Require Import ZArith List Bool Arith Lia.
 From SP Require Import Base.Sat Base.Bits Core.Card Core.CardProofs.
 From SP Require Import Logic.Formula Logic.Tseitin Logic.TseitinProofs.
 From SP Require Import Design.Flat Design.Layout Design.Sem.
 From SP Require Import Encode.Compile Encode.CodeSem Encode.Generic Encode.Blocks Encode.Runs
-     Encode.GridLemmas Encode.CrossChunks Encode.LayoutF1 Encode.F1Kinds Encode.F1Cross Encode.F1Sem.
+     Encode.GridLemmas Encode.CrossChunks Encode.LayoutF1 Encode.F1Kinds Encode.F1Cross Encode.F1Sem Encode.F1Sustain.
 Import ListNotations.
 Close Scope Z_scope.
 Open Scope nat_scope.
@@ -34,82 +36,96 @@ Hypothesis HT : 0 < T fb.
 Notation GZ := (GZ fb).
 Notation bit := (bit fb).
 
-(** what Sequential says about the boolean grid: at trial t exactly level (t mod nlevels) is on *)
+(** what Sequential says about the boolean grid: in the first trial of the k-th
+    group after the preamble exactly level (k mod nlevels) is on *)
 Definition Psequential (f : nat) (s : asg) : Prop :=
-  forall t l, t < T fb -> l < nlevels fb f -> bit s t f l = (l =? t mod nlevels fb f).
+  forall k l, pre_of fb f + k * sustain_of fb f < T fb -> l < nlevels fb f ->
+    bit s (pre_of fb f + k * sustain_of fb f) f l = (l =? k mod nlevels fb f).
 
-(** * the guard: a factor without a complex window whose crossings (if any) have no preamble *)
+(** * the guard: a factor without a complex window whose preamble is a whole number of its sustain groups *)
 Lemma seq_guard f : constraint_f1 fb (FSequential f) = true ->
-  isact fb f = true /\ is_complex fb f = false /\ factor_preamble_size fb f = COk 0 /\ sustain_of fb f = 1.
+  isact fb f = true /\ is_complex fb f = false /\ factor_preamble_size fb f = COk (pre_of fb f) /\
+  pre_of fb f mod sustain_of fb f = 0.
 Proof.
-  cbn [constraint_f1]. rewrite !andb_true_iff. intros [[[A B] D] C]. apply negb_true_iff in B. apply Nat.eqb_eq in D.
-  split; [exact A|]. split; [exact B|]. split; [|exact D].
-  destruct (factor_preamble_size fb f) as [[|n]|e]; try discriminate. reflexivity.
+  cbn [constraint_f1]. rewrite !andb_true_iff. intros [[A B] C]. apply negb_true_iff in B.
+  split; [exact A|]. split; [exact B|]. unfold pre_of.
+  destruct (factor_preamble_size fb f) as [p|e]; [|discriminate]. split; [reflexivity|now apply Nat.eqb_eq].
 Qed.
-
-Lemma pre_of_zero f : factor_preamble_size fb f = COk 0 -> pre_of fb f = 0.
-Proof. intros H. unfold pre_of. now rewrite H. Qed.
 
 (** * The literals of [Sequential.apply] *)
-Definition seq_lit (f i l : nat) : fm :=
-  if l =? i mod nlevels fb f then fv (gvar fb i f l) else FNot (fv (gvar fb i f l)).
+Definition seq_lit (f pre sc i l : nat) : fm :=
+  if l =? ((i - pre) / sc) mod nlevels fb f then fv (gvar fb i f l) else FNot (fv (gvar fb i f l)).
 
-Definition seq_lits (f i0 : nat) : list fm :=
-  flat_map (fun i => map (seq_lit f i) (seq 0 (nlevels fb f))) (seq i0 (T fb - i0)).
+Fixpoint seq_lits (fuel f pre sc i : nat) : list fm :=
+  match fuel with
+  | O => []
+  | S fu => if i <? T fb then map (seq_lit f pre sc i) (seq 0 (nlevels fb f)) ++ seq_lits fu f pre sc (i + sc) else []
+  end.
 
-Lemma seq_loop_unroll f : isact fb f = true -> forall fuel i,
-  T fb - i < fuel -> seq_loop fb fuel f (nlevels fb f) 1 0 i = COk (seq_lits f i).
+Lemma seq_loop_unroll f pre sc : isact fb f = true -> 0 < sc -> forall fuel i,
+  T fb - i < fuel -> seq_loop fb fuel f (nlevels fb f) sc pre i = COk (seq_lits fuel f pre sc i).
 Proof.
-  intros Hf. induction fuel as [|fuel IH]; intros i Hfu; [lia|].
-  cbn [seq_loop]. destruct (i <? T fb) eqn:Ei; cbn [negb].
-  - apply Nat.ltb_lt in Ei.
-    rewrite (cmapM_ok _ (seq_lit f i)).
-    2:{ intros l Hl. apply in_seq in Hl. rewrite Nat.add_1_r, (f1_get_variable fb HF1 f l i Hf ltac:(lia)).
-        cbn [cbind]. unfold seq_lit. now rewrite Nat.sub_0_r, Nat.div_1_r. }
-    cbn [cbind]. rewrite Nat.add_1_r, (IH (S i) ltac:(lia)). cbn [cbind].
-    unfold seq_lits. replace (T fb - i) with (S (T fb - S i)) by lia. reflexivity.
-  - apply Nat.ltb_ge in Ei. unfold seq_lits. replace (T fb - i) with 0 by lia. reflexivity.
+  intros Hf Hsc. induction fuel as [|fuel IH]; intros i Hfu; [lia|].
+  cbn [seq_loop seq_lits]. destruct (i <? T fb) eqn:Ei; cbn [negb]; [|reflexivity].
+  apply Nat.ltb_lt in Ei.
+  rewrite (cmapM_ok _ (seq_lit f pre sc i)).
+  2:{ intros l Hl. apply in_seq in Hl. rewrite Nat.add_1_r, (f1_get_variable fb HF1 f l i Hf ltac:(lia)).
+      cbn [cbind]. unfold seq_lit. reflexivity. }
+  cbn [cbind]. rewrite (IH (i + sc) ltac:(lia)). reflexivity.
 Qed.
 
-Lemma in_seq_lits f x :
-  In x (seq_lits f 0) <-> exists t l, t < T fb /\ l < nlevels fb f /\ x = seq_lit f t l.
+Lemma in_seq_lits f pre sc x : 0 < sc -> forall fuel i, T fb - i < fuel ->
+  (In x (seq_lits fuel f pre sc i) <->
+   exists j l, i + j * sc < T fb /\ l < nlevels fb f /\ x = seq_lit f pre sc (i + j * sc) l).
 Proof.
-  unfold seq_lits. rewrite in_flat_map, Nat.sub_0_r. split.
-  - intros (t & Ht & Hx). apply in_seq in Ht. apply in_map_iff in Hx. destruct Hx as (l & <- & Hl).
-    apply in_seq in Hl. exists t, l. split; [lia|]. split; [lia|reflexivity].
-  - intros (t & l & Ht & Hl & ->). exists t. split; [apply in_seq; lia|].
-    apply in_map. apply in_seq. lia.
+  intros Hsc. induction fuel as [|fuel IH]; intros i Hfu; [lia|].
+  cbn [seq_lits]. destruct (i <? T fb) eqn:Ei.
+  - apply Nat.ltb_lt in Ei. rewrite in_app_iff, (IH (i + sc) ltac:(lia)). split.
+    + intros [H|(j & l & Hj & Hl & ->)].
+      * apply in_map_iff in H. destruct H as (l & <- & Hl). apply in_seq in Hl. exists 0, l. rewrite Nat.add_0_r. repeat split; lia.
+      * exists (S j), l. replace (i + S j * sc) with (i + sc + j * sc) by lia. auto.
+    + intros (j & l & Hj & Hl & ->). destruct j as [|j].
+      * left. rewrite Nat.add_0_r. apply in_map. apply in_seq. lia.
+      * right. exists j, l. replace (i + sc + j * sc) with (i + S j * sc) by lia. auto.
+  - apply Nat.ltb_ge in Ei. split; [intros []|]. intros (j & l & Hj & _). lia.
 Qed.
 
-Lemma eval_seq_lit s f t l :
-  eval s (seq_lit f t l) = eqb (bit s t f l) (l =? t mod nlevels fb f).
+Lemma eval_seq_lit s f pre sc t l :
+  eval s (seq_lit f pre sc t l) = eqb (bit s t f l) (l =? ((t - pre) / sc) mod nlevels fb f).
 Proof.
   unfold seq_lit, F1Kinds.bit.
   pose proof (gvar_pos fb t f l) as Hp.
-  destruct (l =? t mod nlevels fb f); cbn [eval fv]; rewrite lit_true_pos by lia; unfold zn;
+  destruct (l =? ((t - pre) / sc) mod nlevels fb f); cbn [eval fv]; rewrite lit_true_pos by lia; unfold zn;
     destruct (s (Z.of_nat (gvar fb t f l))); reflexivity.
 Qed.
 
-Lemma eval_seq_lits s f : eval s (FAnd (seq_lits f 0)) = true <-> Psequential f s.
+Lemma eval_seq_lits s f : 0 < sustain_of fb f ->
+  eval s (FAnd (seq_lits (S (T fb)) f (pre_of fb f) (sustain_of fb f) (pre_of fb f))) = true <-> Psequential f s.
 Proof.
-  cbn [eval]. rewrite forallb_forall. unfold Psequential. split.
-  - intros H t l Ht Hl. specialize (H (seq_lit f t l)).
-    rewrite eval_seq_lit in H. apply eqb_prop. apply H. apply in_seq_lits. exists t, l. auto.
-  - intros H x Hx. apply in_seq_lits in Hx. destruct Hx as (t & l & Ht & Hl & ->).
-    rewrite eval_seq_lit, (H t l Ht Hl). apply eqb_reflx.
+  intros Hsc. cbn [eval]. rewrite forallb_forall. unfold Psequential. set (pre := pre_of fb f). set (sc := sustain_of fb f) in *.
+  assert (Hk : forall k, (pre + k * sc - pre) / sc = k).
+  { intros k. replace (pre + k * sc - pre) with (k * sc) by lia. apply Nat.div_mul. lia. }
+  split.
+  - intros H k l Ht Hl. specialize (H (seq_lit f pre sc (pre + k * sc) l)).
+    rewrite eval_seq_lit, Hk in H. apply eqb_prop. apply H.
+    apply (in_seq_lits f pre sc _ Hsc (S (T fb)) pre ltac:(lia)). exists k, l. auto.
+  - intros H x Hx. apply (in_seq_lits f pre sc _ Hsc (S (T fb)) pre ltac:(lia)) in Hx.
+    destruct Hx as (k & l & Ht & Hl & ->).
+    rewrite eval_seq_lit, Hk, (H k l Ht Hl). apply eqb_reflx.
 Qed.
 
-Lemma apply_sequential_eq f fresh : isact fb f = true -> factor_preamble_size fb f = COk 0 -> sustain_of fb f = 1 ->
+Lemma apply_sequential_eq f fresh : constraint_f1 fb (FSequential f) = true ->
   apply_constraint fb (FSequential f) fresh =
-  let '(cls, fresh') := cnf_fn (seq_lits f 0) fresh in
+  let '(cls, fresh') := cnf_fn (seq_lits (S (T fb)) f (pre_of fb f) (sustain_of fb f) (pre_of fb f)) fresh in
   COk {| ct_fresh := fresh'; ct_clauses := cls; ct_requests := [] |}.
 Proof.
-  intros Hf Hfps Hsu. cbn [apply_constraint]. unfold apply_sequential.
-  rewrite Hfps, Hsu. cbn [cbind].
+  intros Hc. destruct (seq_guard f Hc) as (Hf & Hcx & Hfps & Hdiv). cbn [apply_constraint]. unfold apply_sequential.
+  rewrite Hfps. cbn [cbind].
   pose proof (f1_nlevels_pos fb HF1 f (f1_act_lt fb HF1 f Hf)) as Hn.
+  pose proof (f1_sustain_pos fb (in_f1_facts fb HF1) f) as Hsc.
   replace (nlevels fb f =? 0) with false by (symmetry; apply Nat.eqb_neq; lia).
-  replace (1 =? 0) with false by reflexivity. cbn [orb]. rewrite andb_false_r.
-  rewrite (seq_loop_unroll f Hf (S (T fb)) 0 ltac:(lia)). cbn [cbind]. reflexivity.
+  replace (sustain_of fb f =? 0) with false by (symmetry; apply Nat.eqb_neq; lia). cbn [orb]. rewrite andb_false_r.
+  rewrite (seq_loop_unroll f (pre_of fb f) (sustain_of fb f) Hf Hsc (S (T fb)) (pre_of fb f) ltac:(lia)). cbn [cbind]. reflexivity.
 Qed.
 
 (** * (a): the contribution of a Sequential is a block *)
@@ -118,26 +134,29 @@ Lemma step_sequential f :
   forall fresh ct, (GZ < fresh)%Z -> apply_constraint fb (FSequential f) fresh = COk ct ->
   exists ext, DefinesA (fresh - 1) (ct_fresh ct - 1) (ct_clauses ct) (ct_requests ct) ext (Psequential f).
 Proof.
-  intros Hc0 fresh ct Hfr E. destruct (seq_guard f Hc0) as (Hc & Hcx & Hfps & Hsu).
-  rewrite (apply_sequential_eq f fresh Hc Hfps Hsu) in E.
-  destruct (cnf_fn (seq_lits f 0) fresh) as [cls fresh'] eqn:Ecnf. inversion E. subst ct. clear E.
+  intros Hc0 fresh ct Hfr E. destruct (seq_guard f Hc0) as (Hc & Hcx & Hfps & Hdiv).
+  pose proof (f1_sustain_pos fb (in_f1_facts fb HF1) f) as Hsc.
+  rewrite (apply_sequential_eq f fresh Hc0) in E.
+  destruct (cnf_fn _ fresh) as [cls fresh'] eqn:Ecnf. inversion E. subst ct. clear E.
   cbn [ct_fresh ct_clauses ct_requests].
   assert (HGZ : (0 <= GZ)%Z) by (unfold F1Kinds.GZ, zn; lia).
-  destruct (definesA_tseitin (seq_lits f 0) fresh cls fresh') as (ext & D); [lia| |exact Ecnf|].
-  - intros z Hz. cbn [leaves] in Hz. apply in_flat_map in Hz. destruct Hz as (x & Hx & Hz).
-    apply in_seq_lits in Hx. destruct Hx as (t & l & Ht & Hl & ->).
-    pose proof (gvar_pos fb t f l) as Hp. pose proof (gvar_le fb HF1 HT t f l Ht Hc Hl (lappl_simple fb HF1 f t Hc Hcx)) as Hle.
+  assert (HL : forall z, In z (leaves (FAnd (seq_lits (S (T fb)) f (pre_of fb f) (sustain_of fb f) (pre_of fb f)))) ->
+                         z <> 0%Z /\ (Z.abs z < fresh)%Z).
+  { intros z Hz. cbn [leaves] in Hz. apply in_flat_map in Hz. destruct Hz as (x & Hx & Hz).
+    apply (in_seq_lits f _ _ _ Hsc (S (T fb)) _ ltac:(lia)) in Hx. destruct Hx as (k & l & Ht & Hl & ->).
+    pose proof (gvar_pos fb (pre_of fb f + k * sustain_of fb f) f l) as Hp.
+    pose proof (gvar_le fb HF1 HT _ f l Ht Hc Hl (lappl_simple fb HF1 f _ Hc Hcx)) as Hle.
     unfold zn in Hle. unfold seq_lit in Hz.
-    destruct (l =? t mod nlevels fb f); cbn [leaves fv] in Hz; destruct Hz as [<-|[]]; lia.
-  - exists ext. apply (definesA_conseq _ _ _ _ _ _ _ D). intros s. apply eval_seq_lits.
+    destruct (l =? _); cbn [leaves fv] in Hz; destruct Hz as [<-|[]]; lia. }
+  destruct (definesA_tseitin _ fresh cls fresh' ltac:(lia) HL Ecnf) as (ext & D).
+  exists ext. apply (definesA_conseq _ _ _ _ _ _ _ D). intros s. now apply eval_seq_lits.
 Qed.
 
 Lemma sequential_total f fresh :
   constraint_f1 fb (FSequential f) = true -> exists ct, apply_constraint fb (FSequential f) fresh = COk ct.
 Proof.
-  intros Hc0. destruct (seq_guard f Hc0) as (Hc & Hcx & Hfps & Hsu).
-  rewrite (apply_sequential_eq f fresh Hc Hfps Hsu).
-  destruct (cnf_fn (seq_lits f 0) fresh) as [cls fresh']. eauto.
+  intros Hc0. rewrite (apply_sequential_eq f fresh Hc0).
+  destruct (cnf_fn _ fresh) as [cls fresh']. eauto.
 Qed.
 
 (** * (b): on a one-hot grid, the documented meaning *)
@@ -149,31 +168,41 @@ Proof.
 Qed.
 
 Theorem sequential_sem s q f :
-  onehot fb s q -> constraint_f1 fb (FSequential f) = true ->
+  onehot fb s q -> grouped fb q -> constraint_f1 fb (FSequential f) = true ->
   (Psequential f s <-> forallb (constraint_ok (code_sem fb) q) (code_constraint fb (FSequential f)) = true).
 Proof.
-  intros (Hq & Hr & Hcell & Hbit & _) Hc0. destruct (seq_guard f Hc0) as (Hc & Hcx & Hfps & Hsu).
+  intros Ho Hg Hc0. pose proof Ho as (Hq & Hr & Hcell & Hbit & _). destruct (seq_guard f Hc0) as (Hc & Hcx & Hfps & Hdiv).
   assert (Hap : forall t, lappl fb f t = true) by (intros t; now apply (lappl_simple fb HF1)).
   pose proof (f1_act_lt fb HF1 f Hc) as Hcn. pose proof (f1_nlevels_pos fb HF1 f Hcn) as Hn.
+  pose proof (f1_sustain_pos fb (in_f1_facts fb HF1) f) as Hsc.
   cbn [code_constraint forallb]. rewrite andb_true_r.
   unfold constraint_ok, mk_c. cbn [k_kind k_factor k_level k_windows].
-  rewrite code_nlevels, (pre_of_zero f Hfps), Hsu.
-  change (s_trials (code_sem fb)) with (T fb).
-  rewrite forallb_forall. unfold Psequential. split.
-  - intros H t Ht. apply in_seq in Ht.
-    replace (t <? 0) with false by (symmetry; apply Nat.ltb_ge; lia).
-    rewrite Nat.sub_0_r, Nat.div_1_r.
-    destruct (Hcell t f ltac:(lia) Hc (Hap t)) as (l0 & Hl0 & E0). unfold get_cell in E0. rewrite E0.
-    cbn [cell_eqb].
-    pose proof (Nat.mod_upper_bound t (nlevels fb f) ltac:(lia)) as Hm.
-    pose proof (H t (t mod nlevels fb f) ltac:(lia) Hm) as Hb.
-    rewrite (Hbit t f _ ltac:(lia) Hc (Hap t) Hm) in Hb. unfold get_cell in Hb. rewrite E0, is_level_some, Nat.eqb_refl in Hb.
-    exact Hb.
-  - intros H t l Ht Hl. specialize (H t ltac:(apply in_seq; lia)). cbv beta in H.
-    replace (t <? 0) with false in H by (symmetry; apply Nat.ltb_ge; lia).
-    rewrite Nat.sub_0_r, Nat.div_1_r in H.
-    rewrite (Hbit t f l Ht Hc (Hap t) Hl). unfold get_cell.
-    destruct (Hcell t f Ht Hc (Hap t)) as (l0 & Hl0 & E0). unfold get_cell in E0. rewrite E0 in H |- *.
+  rewrite code_nlevels. change (s_trials (code_sem fb)) with (T fb).
+  set (pre := pre_of fb f) in *. set (sc := sustain_of fb f) in *. set (n := nlevels fb f) in *.
+  apply Nat.mod_divides in Hdiv; [|lia]. destruct Hdiv as (m & Hm).
+  (* the group of a trial after the preamble starts at pre + k * sc *)
+  assert (Hgrp : forall t, pre <= t -> (t / sc) * sc = pre + ((t - pre) / sc) * sc).
+  { intros t Ht. pose proof (Nat.div_mod (t - pre) sc ltac:(lia)) as D.
+    pose proof (Nat.mod_upper_bound (t - pre) sc ltac:(lia)) as R.
+    set (k := (t - pre) / sc) in *. set (r := (t - pre) mod sc) in *.
+    assert (Et : t = (m + k) * sc + r) by lia.
+    rewrite Et at 1. rewrite Nat.div_add_l by lia. rewrite (Nat.div_small r sc R). lia. }
+  rewrite forallb_forall. unfold Psequential. fold pre sc n. split.
+  - intros H t Ht. apply in_seq in Ht. destruct (t <? pre) eqn:Etp; [reflexivity|]. apply Nat.ltb_ge in Etp.
+    set (k := (t - pre) / sc). pose proof (Hgrp t Etp) as Eg. fold k in Eg.
+    assert (Ht0 : pre + k * sc <= t) by (rewrite <- Eg; apply (group_le fb HT)).
+    change (nth t (nth f q []) None) with (get_cell q f t).
+    rewrite <- (Hg f t Hc ltac:(lia)). fold sc. rewrite Eg.
+    destruct (Hcell (pre + k * sc) f ltac:(lia) Hc (Hap _)) as (l0 & Hl0 & E0). rewrite E0. cbn [cell_eqb].
+    pose proof (Nat.mod_upper_bound k n ltac:(lia)) as Hmn.
+    pose proof (H k (k mod n) ltac:(lia) Hmn) as Hb.
+    rewrite (Hbit (pre + k * sc) f _ ltac:(lia) Hc (Hap _) Hmn), E0, is_level_some, Nat.eqb_refl in Hb. exact Hb.
+  - intros H k l Ht Hl. specialize (H (pre + k * sc) ltac:(apply in_seq; lia)). cbv beta in H.
+    replace (pre + k * sc <? pre) with false in H by (symmetry; apply Nat.ltb_ge; lia).
+    replace ((pre + k * sc - pre) / sc) with k in H by (replace (pre + k * sc - pre) with (k * sc) by lia; symmetry; apply Nat.div_mul; lia).
+    change (nth (pre + k * sc) (nth f q []) None) with (get_cell q f (pre + k * sc)) in H.
+    rewrite (Hbit (pre + k * sc) f l Ht Hc (Hap _) Hl).
+    destruct (Hcell (pre + k * sc) f Ht Hc (Hap _)) as (l0 & Hl0 & E0). rewrite E0 in H |- *.
     cbn [cell_eqb] in H. apply Nat.eqb_eq in H. rewrite is_level_some, H. apply Nat.eqb_sym.
 Qed.
 
